@@ -1080,8 +1080,10 @@ func TestC14(t *testing.T) {
 		r.Floor("mutant_rejected:"+cl, 20)
 	}
 	for _, cl := range []string{"far-below", "below", "just-below", "at-threshold", "just-above", "far-above"} {
-		r.Floor("blocks_pledge_"+cl, 8)
+		r.Floor("blocks_pledge_"+cl, 5)
 	}
+	r.Floor("mutant_rejected:other-branch-table", 3)
+	r.Floor("reorganisations_to_side_branch", 3)
 	r.Floor("template_first-epoch-block_exact", 10)
 	r.Floor("template_off-epoch-block_exact", 20)
 	r.Floor("template_paying_nonempty_table", 8)
